@@ -310,6 +310,23 @@ class IntronsLeg(object):
                            sig={"kind": case["mode"], "geometry": geom})
         if dbsnap.snapshot(db) != before:
             return Failure("%s modified the database" % case["mode"], sig={"kind": "db-modified"})
+        # the same call again after an exon was deleted through the same handle reflects the new exon set
+        victim = None
+        for t in txs:
+            if len(t["exons"]) >= 3:
+                victim = t["exons"][1]
+                t["exons"] = [e for e in t["exons"] if e is not victim]
+                break
+        if victim is not None and case["mode"] == "introns":
+            db.delete(victim["attrs"]["ID"][0], make_backup=False)
+            want2 = []
+            for t in txs:
+                want2 += [_exp_tuple(x) for x in ref_inter(t["exons"], "intron", case["merge_attributes"], case["numeric_sort"], None)]
+            got2 = [_as_tuple(f) for f in db.create_introns(**kw)]
+            if sorted(map(key, got2)) != sorted(map(key, want2)):
+                return Failure("create_introns after delete(%r) on the same handle still reflects the old exon set: %r vs %r"
+                               % (victim["attrs"]["ID"][0], sorted(x[:3] for x in got2), sorted(x[:3] for x in want2)),
+                               sig={"kind": "introns-stale-after-delete"})
         return None
 
 
